@@ -27,6 +27,7 @@ var prop string
 
 func main() {
 	flag.StringVar(&prop, "prop", "C23", "property whose oracle is evaluated: C22|C23|C24|C25")
+	bigstmt := flag.Bool("bigstmt", false, "only replay the >64k-row failing statement scenario (unregistered)")
 	e := hx.Init("sqltxn", "")
 	defer e.Finish()
 	e.Rep.Property = prop
@@ -60,6 +61,10 @@ func main() {
 		}
 	}
 
+	if *bigstmt {
+		h.runBigStmt()
+		return
+	}
 	if e.Replay != "" {
 		rf, err := hx.LoadReplay(e.Replay)
 		if err != nil {
